@@ -197,6 +197,56 @@ impl Default for Tr {
     }
 }
 
+/// Plain element: identity-carrying, `Clone` observable, but no destructor (`needs_drop` is false).
+#[derive(Debug)]
+pub struct Pl {
+    pub id: u64,
+}
+impl Clone for Pl {
+    fn clone(&self) -> Pl {
+        let k = CLONE_CALLS.with(|c| {
+            let mut c = c.borrow_mut();
+            let v = *c;
+            *c += 1;
+            v
+        });
+        let bad = BAD_CLONE.with(|b| *b.borrow() == Some(k));
+        if bad {
+            log(format!("l{}:{}", k, self.id));
+            log(format!("panic:{}", k));
+            panic!("inject:clone:{}", k);
+        }
+        let id = fresh_id();
+        log(format!("clone:{}:{}>{}", k, self.id, id));
+        Pl { id }
+    }
+}
+
+/// element kinds the engines are generic over
+pub trait Elem: Sized + Clone {
+    const NEEDS_DROP: bool;
+    fn mk(id: u64) -> Self;
+    fn eid(&self) -> u64;
+}
+impl Elem for Tr {
+    const NEEDS_DROP: bool = true;
+    fn mk(id: u64) -> Tr {
+        Tr { id }
+    }
+    fn eid(&self) -> u64 {
+        self.id
+    }
+}
+impl Elem for Pl {
+    const NEEDS_DROP: bool = false;
+    fn mk(id: u64) -> Pl {
+        Pl { id }
+    }
+    fn eid(&self) -> u64 {
+        self.id
+    }
+}
+
 /// Zero-sized drop-tracked element (counts drops only).
 pub struct TrZ;
 impl Drop for TrZ {
